@@ -40,14 +40,29 @@ func NewUintNode(byteSize int, values ...interface{}) ItemNode {
 	for i, value := range values {
 		switch value := value.(type) {
 		case int:
+			if value < 0 {
+				panic("value overflow")
+			}
 			nodeValues = append(nodeValues, uint64(value))
 		case int8:
+			if value < 0 {
+				panic("value overflow")
+			}
 			nodeValues = append(nodeValues, uint64(value))
 		case int16:
+			if value < 0 {
+				panic("value overflow")
+			}
 			nodeValues = append(nodeValues, uint64(value))
 		case int32:
+			if value < 0 {
+				panic("value overflow")
+			}
 			nodeValues = append(nodeValues, uint64(value))
 		case int64:
+			if value < 0 {
+				panic("value overflow")
+			}
 			nodeValues = append(nodeValues, uint64(value))
 		case uint:
 			nodeValues = append(nodeValues, uint64(value))
